@@ -59,6 +59,7 @@ def run(ctx):
     policy = t.weighted([1, 3, 4, 2, 3], "policy")  # none, simple, memory (local), memory (shared), hdf5
     tol = TOL if t.flag(0.35, "tolerance") else 0.0
     sparse = t.flag(0.2, "sparse_jacobian")
+    inplace = t.flag(0.3, "body_updates_self_coupled_input_in_place")
     pname = ["none", "SimpleCache", "MemoryFullCache/local", "MemoryFullCache/shared", "HDF5Cache"][policy]
     path = str(ctx.scratch / "cache.h5")
 
@@ -73,7 +74,7 @@ def run(ctx):
             d.set_cache("HDF5Cache", tolerance=tol, hdf_file_path=path, hdf_node_path="node")
 
     SingleInstancePerFileAttribute.instances.clear()
-    d = CDisc(sparse)
+    d = CDisc(sparse, inplace)
     attach(d)
     full_cache = policy in (2, 3, 4)
     stored = []  # keys of the inputs held by the cache (model), in storage order
@@ -106,7 +107,9 @@ def run(ctx):
         else:
             base = pool[t.choice(len(pool), "pool_index")]
             inp = {k: array(v) for k, v in base.items()}
-            inp.pop(t.pick(["a", "b", "s"], "dropped"))
+            # (an in-place body would update the grammar's default array of the self-coupled variable,
+            # for the cached discipline and for an uncached twin alike: s is then always given)
+            inp.pop(t.pick(["a", "b"] if inplace else ["a", "b", "s"], "dropped"))
             ctx.probe("partially_defaulted_input")
         return inp, kind
 
@@ -172,6 +175,11 @@ def run(ctx):
     for i in range(n_ops):
         with t.frame("op"):
             op = t.weighted([6, 4, 2, 1, 1, 2, 1], "op")
+            if inplace and op == 1:
+                # with a body updating its self-coupled input in place, the Jacobian is computed and cached for
+                # the post-run value of that input (in the unchanged tree, with or without cache): only
+                # executions are compared in this mode
+                op = 0
             if op in (0, 1):
                 inp, kind = draw_input(i)
                 full = full_of(inp)
@@ -243,7 +251,7 @@ def run(ctx):
                 ops.append(("reopen",))
                 n_run = d.n_run
                 SingleInstancePerFileAttribute.instances.clear()
-                d = CDisc(sparse)
+                d = CDisc(sparse, inplace)
                 d.n_run = n_run
                 attach(d)
                 ctx.fire("cache_reopened_from_file")
@@ -269,4 +277,4 @@ def run(ctx):
     SingleInstancePerFileAttribute.instances.clear()
     ctx.event("ops", canon(ops))
     ctx.case((pname, tol, canon(ops)), nontrivial=repeated)
-    ctx.sample = {"policy": pname, "tolerance": tol, "sparse": bool(sparse), "ops": [list(map(str, o)) for o in ops[:25]], "body_runs": d.n_run}
+    ctx.sample = {"policy": pname, "tolerance": tol, "sparse": bool(sparse), "inplace_body": bool(inplace), "ops": [list(map(str, o)) for o in ops[:25]], "body_runs": d.n_run}
